@@ -463,6 +463,13 @@ class Engine(
                 return self._direct_from_clauses(lhs) | self._direct_from_clauses(rhs)
         return set()
 
+    @staticmethod
+    def _from_objects(payload: Payload) -> set[int]:
+        """Return the identities of the tables and aliased subqueries that
+        appear directly in the FROM clause of a payload.
+        """
+        return {id(obj) for obj in sqlalchemy.sql.util.find_tables(payload.from_clause, include_aliases=True)}
+
     def get_identifier(self, tag: ColumnTag) -> str:
         """Return the SQL identifier that should be used to represent the given
         column.
@@ -719,6 +726,13 @@ class Engine(
             ):
                 lhs_payload = self.to_payload(lhs)
                 rhs_payload = self.to_payload(rhs)
+                if not self._from_objects(lhs_payload).isdisjoint(self._from_objects(rhs_payload)):
+                    # Both operands read the same table (or other FROM object)
+                    # directly - possibly only now that payloads have been
+                    # attached to materializations or transfers - which is
+                    # ambiguous in a single FROM clause; turn one operand into
+                    # a (uniquely aliased) subquery.
+                    rhs_payload = self.to_payload(Select.apply_skip(rhs))
                 assert common_columns is not None, "Guaranteed by Join.apply and PartialJoin.apply."
                 on_terms: list[sqlalchemy.sql.ColumnElement] = []
                 if common_columns:
